@@ -77,6 +77,10 @@ CLAIMED = {
             'bounded, solver-complete inside the bound: for every x the coefficient form predicts what the score-based predictor predicts (1..2 latent variables, 2..3 predictors); one latent variable lowers the residual sum of squares by exactly b^2 t\'t (never increases it); inner relation b = u\'t/t\'t',
             'the OLS limit at full rank and equivariance (two-run query) are NOT decided in quick; structural facts p_k.w_k=1, p_i.w_j=0 (i>j) assumed on the symbolic model (C03); exact reals',
             'DESIGN.md 5/C04'),
+    'C02': ('CBMC symbolic execution of the real PCA loop with the guarded hooks (start state, two passes from an arbitrary state with the real calcConvergence, exact-fixed-point pass) -> SMT VC over the reals -> z3',
+            'bounded, solver-complete inside the bound for the decidable clauses only: the iteration starts from the column of largest variance; a component is left only when the documented criterion (as computed by the real calcConvergence) is below 1e-10 and not otherwise; an exact fixed point of the pass is an eigenpair of E\'E with explained variance eigenvalue/trace*100',
+            'NOT decided: convergence to the k-th largest eigenpair, accuracy implied by the tolerance, rotation/permutation equivariance (limit statements of a floating-point iteration; two-run queries); exact reals; n,m <= 3',
+            'DESIGN.md 5/C02'),
 }
 NA = {
     'C16': 'behaviour lives inside SQLite and libc decimal formatting (FFI + file I/O); nothing of it is source in /repo that could be executed symbolically - an encoding would verify a hand-written SQL fake, not the code',
